@@ -317,7 +317,7 @@ func TestVerif(t *testing.T) {
 	lastProgress.Store(time.Now().UnixNano())
 	limit := mon.scenarioLimit
 	if limit == 0 {
-		limit = 300 * time.Second
+		limit = 900 * time.Second
 	}
 	go func() {
 		for {
@@ -566,7 +566,9 @@ func clip(s string, n int) string {
 // hangLimit is the in-process watchdog for one call into rapid: it only speeds up the detection of a hang.
 // When it fires the shard dumps its goroutines and exits without a result, and the runner re-runs the
 // scenario alone; only a repeatable hang is reported as a violation.
-const hangLimit = 150 * time.Second
+// (It must be well above maxWallPerCheck, the budget after which a long but progressing Check is cut off
+// gracefully and counted as inconclusive.)
+const hangLimit = 420 * time.Second
 
 func waitOrDie(done <-chan struct{}, what string) {
 	select {
